@@ -87,6 +87,7 @@ def main(argv=None):
         mod = importlib.import_module(f"sim.checks.{args.prop.lower()}")
         return harness.run_check(mod, tier, seed)
     if args.cmd == "replay":
+        sim.pin_to_one_cpu()  # the case runs in this process
         return harness.replay(args.path)
     if args.cmd == "selftest":
         from sim import selftest
